@@ -291,7 +291,12 @@ def attach_replay(led, model):
         pay['iso'] = [71e3, 0.33, 2.]
     try:
         r = pyreplay.run_real(O.TANGENT, pay, timeout=1500)
-        rep = {'reproduced': bool(r.get('n_entries_off')) or (r.get('fint_at_zero_max') or 0) > 1e-9, 'input': pay, 'result': r,
+        from .c16 import model_db as _db
+        d_ = _db()[model]
+        sub = 'fsdt' if 'fsdt' in model else 'clpt'
+        current = pyreplay.binary_matches_source(['compmech/conecyl/%s/%s.pyx' % (sub, d_[k]) for k in ('non-linear', 'commons', 'linear')])
+        rep = {'reproduced': bool(current and (bool(r.get('n_entries_off')) or (r.get('fint_at_zero_max') or 0) > 1e-9)), 'input': pay, 'result': r,
+               'binary_built_from_these_sources': current,
                'on': 'installed compiled package (not rebuilt from the .pyx under check)',
                'real_function': 'ConeCyl.calc_kT vs central difference of ConeCyl.calc_fint'}
     except Exception as e:
